@@ -68,3 +68,36 @@ Print Assumptions C10_checked_no_spurious.
 Theorem C10_read_extent_criterion_refuted : ~ stmt_read_extent_criterion.
 Proof. exact read_extent_criterion_refuted. Qed.
 Print Assumptions C10_read_extent_criterion_refuted.
+
+(* ---- the SBEPP_SIZE_CHECK macro and detail::is_within_size of /repo's
+   CURRENT sbepp.hpp, as clang expands and types them (SrcExprs.v, regenerated
+   on every run by harness/srcexprs.py): the handler stays silent exactly when
+   the accessed bytes lie inside [begin, end), wherever the view starts ---- *)
+From Coq Require Import String List.
+From Sbepp Require Import CInt CExpr SrcExprs SrcExprsProofs.
+Import ListNotations.
+Local Open Scope Z_scope.
+Local Open Scope string_scope.
+
+Theorem C10_source_size_check_macro : forall b e off size,
+  0 < b < 2 ^ 63 -> 0 <= e < 2 ^ 63 -> in_range U64 off = true -> in_range U64 size = true ->
+  (effs_eval [("begin", b); ("end", e); ("offset", off); ("size", size)] src_size_check_macro = Some [1]
+   <-> (b <= e /\ b + off + size <= e)) /\
+  (effs_eval [("begin", b); ("end", e); ("offset", off); ("size", size)] src_size_check_macro = Some [0]
+   <-> ~ (b <= e /\ b + off + size <= e)).
+Proof. exact src_size_check_sound_complete. Qed.
+Print Assumptions C10_source_size_check_macro.
+
+Theorem C10_source_size_check_is_the_model : forall b e off size,
+  0 < b < 2 ^ 63 -> 0 <= e < 2 ^ 63 -> in_range U64 off = true -> in_range U64 size = true ->
+  effs_eval [("begin", b); ("end", e); ("offset", off); ("size", size)] src_size_check_macro
+  = Some [zb (Cursor.size_check b e off size)].
+Proof. exact src_size_check_macro_is_model. Qed.
+Print Assumptions C10_source_size_check_is_the_model.
+
+Theorem C10_source_is_within_size : forall off size avail,
+  in_range U64 off = true -> in_range U64 size = true -> in_range U64 avail = true ->
+  effs_eval [("offset", off); ("size", size); ("available", avail)] src_is_within_size
+  = Some [zb (off + size <=? avail)%Z].
+Proof. exact src_is_within_size_spec. Qed.
+Print Assumptions C10_source_is_within_size.
